@@ -23,7 +23,7 @@ from . import tlc, traces
 
 def interrupted_inside(tr):
     """non-trivial rule: the interruption falls inside a half-sweep"""
-    st = tr['ev'][-1]['stop']
+    st = tr['ev'][-1].get('stop')
     return st in ('m', 'func')
 
 
@@ -129,6 +129,11 @@ def validate(ctx, trs, sigprefix='cross:trace'):
         ctx.add_tlc(r_, 'trace validation (Trace_Cross), %d traces' % len(trs))
     for t, v in zip(trs, verdicts):
         key = (t['cfg'], t['meta'])
+        if t['ev'] and t['ev'][-1].get('ev') == 'raised':
+            ctx.case(key=key, nontrivial=True)
+            ctx.violation('cross:raises', 'cross raised instead of returning a tensor (%s); cfg=%s fault=%s' % (t['ev'][-1]['what'], t['cfg'], t['meta']),
+                          case={'cfg': t['cfg'], 'meta': t['meta']})
+            continue
         ctx.case(key=key, nontrivial=interrupted_inside(t),
                  sample={'cfg': t['cfg'], 'fault': t['meta'], 'events': len(t['ev']), 'final': t['ev'][-1]})
         if v['ok']:
